@@ -1,9 +1,104 @@
 import GnpyDriver.JsonUtil
 import GnpyModel
-/- driver handlers for property C18 (ops are named "c18.<name>") -/
+/- driver handlers for property C18 (ops are named "c18.<name>")
+
+   wire form of a document tree (Gnpy.J):  null | true/false | integer | "string" |
+   ["f", bits] (a float as its binary64 bit pattern) | ["a", x1, ...] (list) | ["o", [k1, v1], ...] (dict, in order) -/
 open Lean
 namespace Gnpy.Drv.C18
+open Gnpy Gnpy.Yang
 
-def handlers : List (String × Handler) := []
+partial def getJ (j : Json) : R J :=
+  match j with
+  | .null => pure .null
+  | .bool b => pure (.bool b)
+  | .str s => pure (.str s)
+  | .num _ => do return .int (← j.getInt?)
+  | .arr a =>
+    match a.toList with
+    | Json.str "f" :: [b] => do return .flt (← b.getNat?)
+    | Json.str "a" :: xs => do return .arr (← xs.mapM getJ)
+    | Json.str "o" :: kvs => do
+      let l ← kvs.mapM (fun kv => do
+        match ← getArr kv with
+        | [k, v] => return (← getStr k, ← getJ v)
+        | _ => throw "kv pair expected")
+      return .obj l
+    | _ => throw "tagged array expected"
+  | .obj _ => throw "plain JSON objects are not part of the wire form"
+
+partial def putJ : J → Json
+  | .null => .null
+  | .bool b => .bool b
+  | .int i => toJson i
+  | .flt b => Json.arr #[Json.str "f", toJson b]
+  | .str s => .str s
+  | .arr l => Json.arr (#[Json.str "a"] ++ (l.map putJ).toArray)
+  | .obj l => Json.arr (#[Json.str "o"] ++ (l.map (fun kv => Json.arr #[Json.str kv.1, putJ kv.2])).toArray)
+
+def getReprs (j : Json) : R (List (Nat × String)) := do
+  match j.getObjVal? "reprs" with
+  | .error _ => return []
+  | .ok r => (← getArr r).mapM (fun p => do
+      match ← getArr p with
+      | [b, s] => return (← getNat b, ← getStr s)
+      | _ => throw "repr pair expected")
+
+def outcome (r : PyR J) : Json :=
+  match r with
+  | .ok v => jObj [("value", putJ v)]
+  | .error e => jObj [("error", jStr e)]
+
+def toYang (j : Json) : R Json := do
+  return outcome (legacyToYang (← getReprs j) (← getJ (← fld j "doc")))
+
+def toLegacy (j : Json) : R Json := do
+  return outcome (yangToLegacy (← getReprs j) (← getJ (← fld j "doc")))
+
+def toYangOld (j : Json) : R Json := do
+  return outcome (legacyToYangOld (← getReprs j) (← getJ (← fld j "doc")))
+
+def toLegacyOld (j : Json) : R Json := do
+  return outcome (yangToLegacyOld (← getReprs j) (← getJ (← fld j "doc")))
+
+def precisionH (_ : Json) : R Json :=
+  return jList (fun kv => Json.arr #[jStr kv.1, jInt kv.2]) precisionDict
+
+def fmtH (j : Json) : R Json := do
+  let bits ← fNat j "bits"
+  let d ← fInt j "d"
+  match prettyStr (← getReprs j) bits d with
+  | .ok s => return jObj [("value", jStr s)]
+  | .error e => return jObj [("error", jStr e)]
+
+def parseH (j : Json) : R Json := do
+  return jOpt jNat (Round.parseFloatBits (← fStr j "s"))
+
+def asDict (j : J) : R Dict :=
+  match j with
+  | .obj l => pure l
+  | _ => throw "dict expected"
+
+def jAliases (r : PyR (List (String × Dict))) : Json :=
+  match r with
+  | .ok l => jObj [("value", jList (fun nd => Json.arr #[jStr nd.1, putJ (.obj nd.2)]) l)]
+  | .error e => jObj [("error", jStr e)]
+
+def aliasesH (j : Json) : R Json := do
+  return jAliases (expandAliases (← asDict (← getJ (← fld j "entry"))))
+
+def aliasesF4H (j : Json) : R Json := do
+  return jAliases (expandAliasesF4 (← asDict (← getJ (← fld j "entry"))))
+
+def modesH (j : Json) : R Json := do
+  let ms ← (← getArr (← fld j "modes")).mapM (fun m => do asDict (← getJ m))
+  match expandModes ms with
+  | .ok l => return jObj [("value", jList (fun d => putJ (.obj d)) l)]
+  | .error e => return jObj [("error", jStr e)]
+
+def handlers : List (String × Handler) :=
+  [("c18.to_yang", toYang), ("c18.to_legacy", toLegacy), ("c18.to_legacy_old", toLegacyOld), ("c18.to_yang_old", toYangOld),
+   ("c18.precision", precisionH), ("c18.fmt", fmtH), ("c18.parse", parseH),
+   ("c18.aliases", aliasesH), ("c18.aliases_f4", aliasesF4H), ("c18.modes", modesH)]
 
 end Gnpy.Drv.C18
